@@ -186,9 +186,9 @@ def resolve_after_none(seed):
 
 
 # ------------------------------------------------------------------------------------------------ C14
-def dimension_reduction(name, seed, heuristic, tol_dr=1e-4):
+def dimension_reduction(name, seed, heuristic, tol_dr=1e-4, eig_reg=None):
     fails = []
-    info = {'template': name, 'seed': seed, 'heuristic': heuristic}
+    info = {'template': name, 'seed': seed, 'heuristic': heuristic, 'tol': tol_dr, 'eig_regularization': eig_reg}
     spy = Spy().install()
     try:
         pep0, h0 = models.build(name, seed)
@@ -197,7 +197,8 @@ def dimension_reduction(name, seed, heuristic, tol_dr=1e-4):
         duals0 = [o.eval_dual() for k, o in w0.sent]
         tr0 = float(np.trace(pep0.G_value))
         pep, h = models.build(name, seed)
-        td = solve(pep, dimension_reduction_heuristic=heuristic, tol_dimension_reduction=tol_dr)
+        extra = {} if eig_reg is None else {'eig_regularization': eig_reg}
+        td = solve(pep, dimension_reduction_heuristic=heuristic, tol_dimension_reduction=tol_dr, **extra)
         w = spy.wrappers[-1]
         info['taus'] = (t0, td)
         if abs(td - t0) > 50 * tol(t0):
@@ -240,17 +241,21 @@ def history(name, seed, hist):
     """hist: list of (template, seed, action) with action in build / solve / fail / abandon"""
     fails = []
     t_ref, fp_ref = run_once(name, seed)
+    keep = []          # earlier models stay referenced (a notebook session): object addresses - hence id()-based hashes - of later models shift
     for (hn, hs, action) in hist:
+        keep.append([object() for _ in range(1 + hs % 89)])
         if action == 'build':
-            models.build(hn, hs)
+            keep.append(models.build(hn, hs))
         elif action == 'solve':
             run_once(hn, hs)
         elif action == 'fail':
             p, _ = models.build('T_unbounded', hs)
             solve(p)
+            keep.append(p)
         elif action == 'abandon':
             try:
                 p, h = models.build(hn, hs)
+                keep.append((p, h))
                 p.set_performance_metric(h['points'][0])        # AssertionError mid-way: model abandoned
             except AssertionError:
                 pass
@@ -377,6 +382,14 @@ def dual_tables(name, seed, resolve=False):
                         c = tab.iloc[i, j]
                         if isinstance(c, Constraint):
                             in_tables.append(c)
+                            # the cell is the one of the ordered pair the constraint was generated for: its name carries the labels of that pair
+                            nm = c.get_name() or ''
+                            rows, cols = [str(x) for x in tab.index], [str(x) for x in tab.columns]
+                            if tab.shape[0] > 1 and len(set(rows)) == len(rows) and len(set(cols)) == len(cols) and nm.endswith(')') and '(' in nm:
+                                inside = nm[nm.rindex('(') + 1:-1]
+                                if inside != '%s, %s' % (rows[i], cols[j]):
+                                    fails.append(('C17', 'table.cell_is_its_pair', '%s: cell (%s, %s) of %r holds the constraint named %r' % (
+                                        cname, rows[i], cols[j], cond, nm)))
                             if abs(float(dt.iloc[i, j]) - c.eval_dual()) > 1e-12:
                                 fails.append(('C17', 'duals.cell', '%s: dual cell (%d,%d) of %r is not the multiplier of that constraint' % (cname, i, j, cond)))
                         elif float(dt.iloc[i, j]) != 0:
@@ -476,6 +489,18 @@ class MosekSpy:
             def send_lmi_constraint_to_solver(self, psd_counter, psd_matrix):
                 self.sent.append(('lmi', psd_matrix))
                 return super().send_lmi_constraint_to_solver(psd_counter, psd_matrix)
+
+            def heuristic(self, weight):
+                out = super().heuristic(weight)
+                # what the task now minimises must be <W, G> (the function the cvxpy back-end minimises), nothing else
+                W = np.asarray(weight, dtype=float)
+                C = self.task.barC.get(0)
+                lin = max([abs(v) for v in self.task.c.values()] + [0.0])
+                ok = C is not None and C.shape == W.shape and np.max(np.abs(C - (W + W.T) / 2)) <= 1e-9 * (1 + np.max(np.abs(W))) \
+                    and lin == 0 and self.task.sense == 'minimize' and set(self.task.barC) <= {0}
+                spy.heuristic_objectives.append(bool(ok))
+                return out
+        self.heuristic_objectives = []
         self._old = pepmod.WRAPPERS['mosek']
         pepmod.WRAPPERS['mosek'] = SpyMosek
         return self
@@ -518,6 +543,9 @@ def backends(name, seed, heuristic=None, resolve=False):
             return info, fails
         wm = ms.wrappers[-1]
         info['taus'] = (tc, tm)
+        if heuristic and (not ms.heuristic_objectives or not all(ms.heuristic_objectives)):
+            fails.append(('C11', 'mosek.heuristic_objective', 'the objective given to the MOSEK task for the dimension-reduction step is not <W, G> minimised '
+                                                              '(%d of %d heuristic solves)' % (sum(not x for x in ms.heuristic_objectives), len(ms.heuristic_objectives))))
         if (tc is None) != (tm is None) or (tc is not None and abs(tc - tm) > 100 * tol(tc)):
             fails.append(('C11', 'same_value', 'cvxpy back-end %r, MOSEK back-end %r' % (tc, tm)))
             return info, fails
